@@ -2,6 +2,7 @@
    Statements only; proofs in Locks/GuardProofs.v and Locks/SpinProofs.v. *)
 From Coq Require Import List NArith ZArith Arith Bool.
 From FV Require Import Locks.GuardModel Locks.GuardProofs Locks.SpinModel Locks.SpinProofs Gen.SpinOrders.
+From FV Require Import Locks.RAMulti Locks.SpinWeak Locks.SpinWeakProofs.
 Import ListNotations.
 
 (* ---------------------------------------------------------------- spinlocks
@@ -149,6 +150,154 @@ Example C12_simple_example :
   si_grants s = [0; 1; 2]%nat /\ si_released s = 2%nat /\ s_holding (s_pc (si_real s) 2) = true /\
   s_lock (si_real s) = true /\ length (si_acqclk s) = 3%nat /\
   (nth 1 (si_relclk s) cbot 1%nat = 5 /\ nth 2 (si_acqclk s) cbot 1%nat = 5 /\ nth 2 (si_acqclk s) cbot 2%nat = 3)%nat.
+Proof. vm_compute. repeat split; reflexivity. Qed.
+
+
+(* ---------------------------------------------------------------- spinlocks over a memory with STALE reads
+   Model: Locks/SpinWeak.v over Locks/RAMulti.v (multi-writer release/acquire memory: per location a modification
+   order of messages, per thread a view; an atomic load returns ANY message at or after the thread's view, chosen by
+   the schedule entry (thread, choice) -- choice 0 = the last message = the SC machines above; stores append; RMWs read
+   the last message and continue its release sequence).  Every theorem is for every schedule AND every choice stream.
+   [stale_bounded n sc]: no load returns a message that is 2^32 - n or more messages behind the last one.  It is only
+   needed for the ticket lock and only because of the uint32 wrap: C++11 does not forbid a thread that never read
+   serving_ticket_ from reading a message that is 2^32 releases old, which carries its own ticket value again. *)
+
+Theorem C12_ticket_mutex_weak : forall o n base sc t1 t2, (N.of_nat n < W)%N -> stale_bounded n sc ->
+  let s := wt_run_at o n base sc in
+  w_holding (wt_pc s t1) = true -> w_holding (wt_pc s t2) = true -> t1 = t2.
+Proof. intros o n base sc t1 t2 Hn Hb s. exact (TW1_mutex n base s t1 t2 (TW1_run o n base Hn sc Hb)). Qed.
+Print Assumptions C12_ticket_mutex_weak.
+
+Theorem C12_simple_mutex_weak : forall o n sc t1 t2,
+  let s := ws_run o n sc in
+  ws_holding (ws_pc s t1) = true -> ws_holding (ws_pc s t2) = true -> t1 = t2.
+Proof. intros o n sc t1 t2 s. exact (SW1_mutex n s t1 t2 (SW1_run o n sc)). Qed.
+Print Assumptions C12_simple_mutex_weak.
+
+Theorem C12_ticket_fifo_weak : forall o n base sc k t, (N.of_nat n < W)%N -> stale_bounded n sc ->
+  let s := wt_run_at o n base sc in
+  nth_error (wt_grants s) k = Some t -> nth_error (wt_draws s) k = Some t.
+Proof. intros o n base sc k t Hn Hb s. exact (TW1_fifo n base s k t (TW1_run o n base Hn sc Hb)). Qed.
+Print Assumptions C12_ticket_fifo_weak.
+
+(* acquire/release with the orders of the source: right after the (k+1)-st acquisition the acquirer's VIEW includes the
+   view the k-th holder had right after its release store (so everything the previous holder had written or seen is
+   visible); consequently the plain access inside the critical section never races ([race] stays false: the holder's
+   view covers the last write to the protected data).  The recorders are faithful. *)
+Theorem C12_acq_rel_weak :
+  (forall n base sc, (N.of_nat n < W)%N -> stale_bounded n sc ->
+     let s := wt_run_at src_orders n base sc in
+     (forall k, S k < length (wt_acqview s) -> vle (nth k (wt_relview s) vbot) (nth (S k) (wt_acqview s) vbot)) /\
+     wt_race s = false /\
+     (forall t, w_holding (wt_pc s t) = true -> wt_view s t WData = last_idx (wt_mem s) WData) /\
+     length (wt_acqview s) = length (wt_grants s) /\ length (wt_relview s) = wt_released s) /\
+  (forall n sc,
+     let s := ws_run src_orders n sc in
+     (forall k, S k < length (ws_acqview s) -> vle (nth k (ws_relview s) vbot) (nth (S k) (ws_acqview s) vbot)) /\
+     ws_race s = false /\
+     (forall t, ws_holding (ws_pc s t) = true -> ws_view s t WData = last_idx (ws_mem s) WData) /\
+     length (ws_acqview s) = length (ws_grants s) /\ length (ws_relview s) = ws_released s).
+Proof.
+  pose proof orders_sufficient as Hs. unfold sufficient in Hs.
+  apply andb_prop in Hs as (Hs & H4). apply andb_prop in Hs as (Hs & H3). apply andb_prop in Hs as (H1 & H2).
+  split.
+  - intros n base sc Hn Hb s.
+    pose proof (TW1_run src_orders n base Hn sc Hb) as I. pose proof (TW2_run src_orders n base Hn H1 H2 sc Hb) as J.
+    split; [exact (w_hb _ J)|]. split; [exact (w_norace _ J)|]. split; [exact (w_hdata _ J)|].
+    split; [exact (w_alen _ _ _ I)|exact (w_rlen _ _ _ I)].
+  - intros n sc s. destruct (SW12_run src_orders n H3 H4 sc) as (I & J).
+    split; [exact (sw_hb _ J)|]. split; [exact (sw_norace _ J)|]. split; [exact (sw_hdata _ J)|].
+    split; [exact (sw_alen _ _ I)|exact (sw_rlen _ _ I)].
+Qed.
+Print Assumptions C12_acq_rel_weak.
+
+(* hand-over under a fair memory.  Ticket lock: lock free + somebody spinning => the head waiter t is ready (the LAST
+   message of serving_ticket_ carries its ticket); whatever the other threads do and however stale t's own loads are
+   meanwhile, nobody else can acquire, and as soon as the rest of the schedule contains (t, 0) -- t scheduled with a
+   load that reads the last message: fair scheduler + fair memory -- t has left lock().
+   Simple lock: lock free => a thread at its exchange acquires by that step whatever the choice (an RMW reads the
+   last message); a thread in the inner loop returns to the exchange as soon as one of its loads reads the last
+   message; and if a thread at its exchange is scheduled at all in the rest of the schedule, somebody acquires. *)
+Theorem C12_handover_weak :
+  (forall o n base sc, (N.of_nat n < W)%N -> stale_bounded n sc ->
+     let s := wt_run_at o n base sc in
+     (forall u, w_holding (wt_pc s u) = false) -> (exists u, w_waiting (wt_pc s u) = true) ->
+     exists t, w_ready n s t /\
+       forall rest, stale_bounded n rest -> In (t, 0) rest ->
+         exists p q, rest = p ++ q /\ wt_pc (fold_left (wt_step o n) p s) t = WCrit) /\
+  (forall o n sc,
+     let s := ws_run o n sc in
+     (forall u, ws_holding (ws_pc s u) = false) ->
+     (forall t c, t < n -> (ws_pc s t = WSOut \/ ws_pc s t = WSXchg) -> ws_pc (ws_step o n s (t, c)) t = WSCrit) /\
+     (forall t, t < n -> ws_pc s t = WSLoad -> ws_pc (ws_step o n s (t, 0)) t = WSXchg) /\
+     (forall t rest, t < n -> (ws_pc s t = WSOut \/ ws_pc s t = WSXchg) -> (exists c, In (t, c) rest) ->
+        exists p q u, rest = p ++ q /\ ws_holding (ws_pc (fold_left (ws_step o n) p s) u) = true)).
+Proof.
+  split.
+  - intros o n base sc Hn Hb s Hfree Hwait.
+    pose proof (TW1_run o n base Hn sc Hb) as I.
+    exists (whead s). split; [exact (w_ready_exists n base Hn s I Hfree Hwait)|].
+    intros rest Hbr Hin.
+    exact (w_handover_eventually o n base Hn rest s (whead s) I Hfree (w_ready_exists n base Hn s I Hfree Hwait) Hbr Hin).
+  - intros o n sc s Hfree. pose proof (SW1_run o n sc) as I. split; [|split].
+    + intros t c Hlt Hpc. exact (ws_xchg_acquires o n s t c I Hfree Hlt Hpc).
+    + intros t Hlt Hpc. exact (proj1 (ws_load_last o n s t I Hfree Hlt Hpc)).
+    + intros t rest Hlt Hpc Hin. exact (ws_handover_eventually o n rest s t I Hfree Hlt Hpc Hin).
+Qed.
+Print Assumptions C12_handover_weak.
+
+(* ---- non-vacuity (weak memory).  3 threads, counters start at 2^32-2.  Thread 2 (ticket 0) polls serving_ticket_
+   with stale choices 5, 1, 3, 1, 2, 1 while threads 0 and 1 take and release the lock; after 12 entries serving_ticket_
+   has the messages 2^32-2, 2^32-1 but thread 2 has still only seen message 0.  At the end thread 2 holds, the
+   modification order of serving_ticket_ is 2^32-2, 2^32-1, 0 (wrapped), grants = draws, no race, and thread 2's view
+   covers both earlier critical-section writes (data message 2). *)
+Definition wk_sched : sched :=
+  [(0,0);(1,0);(2,0);(2,0);(0,0);(2,5);(0,0);(2,1);(0,0);(2,3);(0,0);(2,1);(1,1);(1,0);(2,2);(1,0);(1,0);(1,0);(2,1);(2,0)]%nat.
+
+Example wk_sched_bounded : stale_bounded 3 wk_sched.
+Proof. unfold stale_bounded, wk_sched. repeat constructor; vm_compute; discriminate. Qed.
+
+Example C12_weak_stale_example :
+  (let s := wt_run_at src_orders 3 ex_base (firstn 12 wk_sched) in
+   map (@mval wloc) (wt_mem s WServing) = [4294967294; 4294967295]%N /\
+   wt_pc s 2%nat = WSpin 0 /\ wt_view s 2%nat WServing = 0%nat) /\
+  (let s := wt_run_at src_orders 3 ex_base wk_sched in
+   map (@mval wloc) (wt_mem s WServing) = [4294967294; 4294967295; 0]%N /\
+   wt_grants s = [0; 1; 2]%nat /\ wt_draws s = [0; 1; 2]%nat /\ wt_pc s 2%nat = WCrit /\ wt_race s = false /\
+   length (wt_acqview s) = 3%nat /\ nth 1 (wt_relview s) vbot WData = 2%nat /\ nth 2 (wt_acqview s) vbot WData = 2%nat /\
+   wt_view s 2%nat WData = last_idx (wt_mem s) WData).
+Proof. vm_compute. repeat split; reflexivity. Qed.
+
+(* each of the four orders in [sufficient] is needed: weakening any one of them to relaxed gives a run in which the
+   second holder enters its critical section WITHOUT the first holder's critical-section write in its view (its view
+   of the data is still message 0 while message 1 exists), i.e. the plain access races *)
+Example C12_acq_rel_weak_needs_orders :
+  let sc_t : sched := [(0,0);(0,0);(0,0);(1,0);(0,0);(0,0);(1,0);(1,0)]%nat in
+  let sc_s : sched := [(0,0);(0,0);(1,0);(0,0);(1,0);(1,0);(1,0)]%nat in
+  let relaxed_unlock_store := mk_orders Relaxed Acquire Relaxed Relaxed Acquire Relaxed Release in
+  let relaxed_spin_load := mk_orders Relaxed Relaxed Relaxed Release Acquire Relaxed Release in
+  let relaxed_exchange := mk_orders Relaxed Acquire Relaxed Release Relaxed Relaxed Release in
+  let relaxed_simple_store := mk_orders Relaxed Acquire Relaxed Release Acquire Relaxed Relaxed in
+  (forall o, In o [relaxed_unlock_store; relaxed_spin_load] ->
+     let s := wt_run_at o 2 0 sc_t in
+     wt_grants s = [0; 1]%nat /\ nth 0 (wt_relview s) vbot WData = 1%nat /\ nth 1 (wt_acqview s) vbot WData = 0%nat /\ wt_race s = true) /\
+  (forall o, In o [relaxed_exchange; relaxed_simple_store] ->
+     let s := ws_run o 2 sc_s in
+     ws_grants s = [0; 1]%nat /\ nth 0 (ws_relview s) vbot WData = 1%nat /\ nth 1 (ws_acqview s) vbot WData = 0%nat /\ ws_race s = true) /\
+  (* ... and with the orders of the source the same schedules are fine *)
+  wt_race (wt_run_at src_orders 2 0 sc_t) = false /\ ws_race (ws_run src_orders 2 sc_s) = false.
+Proof.
+  cbv zeta. split; [|split].
+  - intros o [<-|[<-|[]]]; vm_compute; repeat split; reflexivity.
+  - intros o [<-|[<-|[]]]; vm_compute; repeat split; reflexivity.
+  - vm_compute. split; reflexivity.
+Qed.
+
+(* hand-over hypothesis met: after thread 0 released, nobody holds and 1, 2 spin; the ready waiter is 1 *)
+Example C12_handover_weak_example :
+  let s := wt_run_at src_orders 3 ex_base [(0,0);(1,0);(2,0);(0,0);(0,0);(0,0);(0,0);(2,7)]%nat in
+  w_waiting (wt_pc s 1) = true /\ w_waiting (wt_pc s 2) = true /\ whead s = 1%nat /\
+  wt_pc (wt_step src_orders 3 s (1%nat, 0%nat)) 1%nat = WCrit /\ wt_pc (wt_step src_orders 3 s (2%nat, 0%nat)) 2%nat = WSpin 0.
 Proof. vm_compute. repeat split; reflexivity. Qed.
 
 Local Open Scope Z_scope.
